@@ -27,6 +27,9 @@ DOC = {
     'numpy.zeros': 'np.zeros / np.empty / np.ones: fresh array of the given shape',
     'copy.deepcopy': 'deepcopy(x): fresh object equal to x',
     'tqdm.trange': 'tqdm.trange(n) iterates like range(n)',
+    'numpy.where': 'np.where(mask) / np.nonzero(mask) / mask.nonzero() of a 1-D boolean array: (indices of the true entries, increasing,)',
+    'numpy.any': 'np.any(M, axis=0) of a 2-D boolean array given as a list of equally long rows: entry j is true iff some row has a true entry j',
+    'array==scalar': '1-D array == scalar compares element-wise (elements are hashable scalars compared by value)',
 }
 
 
@@ -266,9 +269,56 @@ def install(E):
         return SeqV(length=la * lb, elem=elem, kind='array', esort='int')
     L['numpy.kron'] = np_kron
 
+
+    def np_where(E, cond, *rest, **kw):
+        if rest or kw:
+            return E.app('numpy.where', [cond] + list(rest) + ([DictV(kw)] if kw else []), tag='ndarray')
+        if isinstance(cond, RangeV):
+            cond = E.as_seq(cond)
+        if isinstance(cond, SeqV):
+            n = cond.zlen()
+            elem = lambda j: E._zb(E.truth(E.seq_elem(cond, j)))
+        elif isinstance(cond, SV) and cond.kind == 'val':
+            n = E.as_int(E.seq_len(cond))
+            elem = lambda j: E._zb(E.truth(E.app('getitem', [cond, SV(j, 'int')])))
+        else:
+            return E.app('numpy.where', [cond], tag='ndarray')
+        E.used_lib.add('numpy.where')
+        f = E.make_filter(n, elem, None, kind='array')
+        return (f,)
+    L['numpy.where'] = np_where
+    L['numpy.nonzero'] = np_where
+    L['ndarray.nonzero'] = np_where
+
+    def np_any(E, x, axis=None, **kw):
+        rows = x.rows2d if isinstance(x, SeqV) and getattr(x, 'rows2d', None) is not None else None
+        if rows is None or axis != 0 or kw:
+            return E.app('numpy.any', [x, axis] + ([DictV(kw)] if kw else []), tag='ndarray')
+        E.used_lib.add('numpy.any')
+        m = rows.zlen()
+        width = rows.row_len
+
+        def elem(j):
+            i = z3.Int(fresh_name('ri'))
+            cell = E._zb(E.truth(E.seq_elem(E.as_seq(E.seq_elem(rows, i)), j)))
+            return SV(z3.Exists([i], z3.And(i >= 0, i < m, cell)), 'bool')
+        return SeqV(length=width, elem=elem, kind='array')
+    L['numpy.any'] = np_any
+
     def np_array(E, x, *a, **kw):
         if isinstance(x, RangeV) and not a and not kw:
             x = E.as_seq(x)
+        if isinstance(x, SeqV) and not a and not kw and x.items is None and x.elem is not None:
+            k0 = z3.Int(fresh_name('row'))
+            try:
+                r0 = x.elem(k0)
+            except Undecided:
+                r0 = None
+            if isinstance(r0, SeqV) and r0.kind == 'array' and not _mentions_const(r0.zlen(), k0):
+                out = SeqV(length=x.length, elem=x.elem, kind='array', esort='val')
+                out.rows2d = x
+                x.row_len = r0.zlen()
+                return out
         if isinstance(x, SeqV) and not a and not kw:
             if x.items is not None and any(isinstance(i, (SeqV, tuple)) for i in x.items):
                 return E.app('numpy.array', [x], tag='ndarray')
@@ -403,6 +453,11 @@ def install(E):
             return r
         return E.app('ndarray.reshape', [x] + list(shape), tag='ndarray')
     L['ndarray.reshape'] = nd_reshape2
+
+
+def _mentions_const(expr, c):
+    from .core import _const_names
+    return str(c) in _const_names(expr)
 
 
 def boxI_(i):
